@@ -108,6 +108,8 @@ struct World<L: Language> {
     limit_hint: Option<(usize, usize)>,
     /// text of a term that no rule of this world matches (k-th hook call): a hook may add it to the e-graph it is handed
     hook_term: fn(usize) -> String,
+    /// at least this many monitored `apply_rewrites` calls before the run
+    min_pre_steps: usize,
 }
 
 fn hook_term_sym(k: usize) -> String {
@@ -188,7 +190,7 @@ fn world_sym(rng: &mut Rng) -> Option<World<LSym>> {
     }
     let rc = rules.clone();
     desc.push(format!("rules {:?}", rules.iter().map(|r| format!("{}: {} => {}", r.0, r.1, r.2)).collect::<Vec<_>>()));
-    Some(World { eg, tracked, rules, mk: Box::new(move || rc.iter().map(|(n, l, r)| Rewrite::new(n, l, r)).collect()), desc, limit_hint: None, hook_term: hook_term_sym })
+    Some(World { eg, tracked, rules, mk: Box::new(move || rc.iter().map(|(n, l, r)| Rewrite::new(n, l, r)).collect()), desc, limit_hint: None, hook_term: hook_term_sym, min_pre_steps: 0 })
 }
 
 fn world_arith(rng: &mut Rng) -> Option<World<LArith>> {
@@ -209,7 +211,7 @@ fn world_arith(rng: &mut Rng) -> Option<World<LArith>> {
     for i in eg.ids() {
         tracked.push(eg.mk_identity_applied_id(i));
     }
-    Some(World { eg, tracked, rules, mk: Box::new(move || chosen.iter().map(mk_rewrite::<()>).collect()), desc, limit_hint: None, hook_term: hook_term_arith })
+    Some(World { eg, tracked, rules, mk: Box::new(move || chosen.iter().map(mk_rewrite::<()>).collect()), desc, limit_hint: None, hook_term: hook_term_arith, min_pre_steps: 0 })
 }
 
 /// n towers `(add 3 (mul 2 (add N_i 0)))` over distinct numbers; the first iteration of `(add ?x 0) => (mul ?x 1)` adds e-nodes,
@@ -233,7 +235,54 @@ fn world_collapse(rng: &mut Rng) -> Option<World<LArith>> {
     let rules: Vec<(String, String, String)> = vec![("grow".into(), "(add ?x 0)".into(), "(mul ?x 1)".into()), ("collapse".into(), "(mul ?x 1)".into(), "7".into())];
     desc.push(format!("rules {:?} (start: {start} nodes)", rules.iter().map(|r| format!("{}: {} => {}", r.0, r.1, r.2)).collect::<Vec<_>>()));
     let rc = rules.clone();
-    Some(World { eg, tracked, rules, mk: Box::new(move || rc.iter().map(|(n, l, r)| Rewrite::new(n, l, r)).collect()), desc, limit_hint: Some((start, start + n)), hook_term: hook_term_arith })
+    Some(World { eg, tracked, rules, mk: Box::new(move || rc.iter().map(|(n, l, r)| Rewrite::new(n, l, r)).collect()), desc, limit_hint: Some((start, start + n)), hook_term: hook_term_arith, min_pre_steps: 0 })
+}
+
+/// Cancelling rounds: one `apply_rewrites` call that adds e-nodes and classes for some matches and, for others, merges classes
+/// whose parents were united by the user beforehand (so that e-nodes collapse by congruence inside a class). The numbers of fresh
+/// and collapsing instances and of pre-united parent pairs vary, so the deltas of node count, class counts, slot and symmetry totals
+/// cancel in many different combinations - a call that changed the equality relation must still report `true`.
+fn world_cancel(rng: &mut Rng) -> Option<World<LSym>> {
+    let mut eg: EGraph<LSym> = EGraph::default();
+    let mut tracked = vec![];
+    let mut desc = vec![];
+    let mut add = |eg: &mut EGraph<LSym>, t: String, desc: &mut Vec<String>| -> Option<AppliedId> {
+        desc.push(format!("add {t}"));
+        guard(|| eg.add_expr(RecExpr::parse(&t).unwrap())).ok()
+    };
+    let fresh_args = ["c", "(g $p0)", "(f $p0 $p1)"];
+    let coll_args = ["d", "e", "(k $p0 $p1)"];
+    let ctxs: [fn(&str) -> String; 4] = [|x| format!("(app {x} c)"), |x| format!("(app c {x})"), |x| format!("(idx $p2 {x})"), |x| format!("(ite {x} c d)")];
+    let a = rng.below(3);
+    for x in fresh_args.iter().take(a) {
+        tracked.push(add(&mut eg, format!("(u {x})"), &mut desc)?);
+    }
+    let b = rng.range(1, 2);
+    for x in coll_args.iter().take(b) {
+        tracked.push(add(&mut eg, format!("(u {x})"), &mut desc)?);
+        let m = rng.below(4);
+        let mut order = rng.perm(ctxs.len());
+        order.truncate(m);
+        for ci in order {
+            let l = add(&mut eg, ctxs[ci](&format!("(u {x})")), &mut desc)?;
+            let r = add(&mut eg, ctxs[ci](&format!("(w (pair {x} {x}))")), &mut desc)?;
+            desc.push("union of the two last terms".into());
+            guard(|| eg.union(&l, &r)).ok()?;
+            tracked.push(l);
+            tracked.push(r);
+        }
+        if m == 0 && rng.chance(1, 2) {
+            tracked.push(add(&mut eg, format!("(w (pair {x} {x}))"), &mut desc)?);
+        }
+    }
+    let mut rules: Vec<(String, String, String)> = vec![("u-unfold".into(), "(u ?x)".into(), "(w (pair ?x ?x))".into())];
+    if rng.chance(1, 2) {
+        // matches only a term created by the first rule in the same round
+        rules.push(("late".into(), "(pair c c)".into(), "(pair d d)".into()));
+    }
+    desc.push(format!("rules {:?} ({} nodes)", rules.iter().map(|r| format!("{}: {} => {}", r.0, r.1, r.2)).collect::<Vec<_>>(), eg.total_number_of_nodes()));
+    let rc = rules.clone();
+    Some(World { eg, tracked, rules, mk: Box::new(move || rc.iter().map(|(n, l, r)| Rewrite::new(n, l, r)).collect()), desc, limit_hint: None, hook_term: hook_term_sym, min_pre_steps: rng.below(2) })
 }
 
 fn sentinel<L: Language + 'static>(counter: Rc<Cell<usize>>) -> Rewrite<L> {
@@ -249,7 +298,7 @@ fn judge<L: Language + 'static>(mut w: World<L>, rng: &mut Rng, out: &mut CaseOu
         }};
     }
     // ---- (1) apply_rewrites' return value, step by step
-    let pre_steps = if w.limit_hint.is_some() { 0 } else { rng.below(3) };
+    let pre_steps = if w.limit_hint.is_some() { 0 } else { rng.below(3).max(w.min_pre_steps) };
     for _ in 0..pre_steps {
         if w.eg.total_number_of_nodes() > 80 {
             break;
@@ -458,6 +507,14 @@ fn judge<L: Language + 'static>(mut w: World<L>, rng: &mut Rng, out: &mut CaseOu
 pub fn run_case(rng: &mut Rng) -> CaseOut {
     let mut out = CaseOut::default();
     if rng.chance(1, 8) {
+        match world_cancel(rng) {
+            Some(w) => {
+                out.inc("runs_cancelling_round");
+                judge(w, rng, &mut out)
+            }
+            None => out.inconclusive = Some("setup panicked (reported by C02/C08)".into()),
+        }
+    } else if rng.chance(1, 8) {
         match world_collapse(rng) {
             Some(w) => judge(w, rng, &mut out),
             None => out.inconclusive = Some("setup panicked (reported by C02/C08)".into()),
